@@ -1884,4 +1884,59 @@ theorem mapsOk_of_all {h : Heap}
   have := List.all_eq_true.mp hall _ hc
   exact Ytk.sorted_of_sortedb kvs this
 
+/-! ### the tail of a melded list is `firstValidListItem` -/
+
+theorem firstValidListItemH_two (i : Nat) (xs ys : List Addr) :
+    firstValidListItemH i [xs, ys] =
+      if i < xs.length then xs.getD i nilAddr else if i < ys.length then ys.getD i nilAddr else nilAddr := by
+  unfold firstValidListItemH
+  by_cases h1 : i < xs.length
+  · simp [List.find?, h1]
+  · by_cases h2 : i < ys.length
+    · simp [List.find?, h1, h2]
+    · simp [List.find?, h1, h2]
+
+/-- beyond the common prefix the melded list holds exactly what `firstValidListItem(i, l1, l2)`
+    returns: the existing item of the longer list (no allocation, no copy) -/
+theorem meldItems_tail {g : Heap → Addr → Addr → Option (Heap × Addr)} :
+    ∀ (xs ys : List Addr) (h h' : Heap) (zs : List Addr), meldItems g h xs ys = some (h', zs) →
+      ∀ i, min xs.length ys.length ≤ i → zs.getD i nilAddr = firstValidListItemH i [xs, ys]
+  | xs, [], h, h', zs, hm, i, _ => by
+    simp only [meldItems, Option.some.injEq, Prod.mk.injEq] at hm
+    rw [← hm.2, firstValidListItemH_two]
+    by_cases h1 : i < xs.length
+    · rw [if_pos h1]
+    · rw [if_neg h1, if_neg (by simp), List.getD_eq_getElem?_getD,
+        List.getElem?_eq_none (Nat.le_of_not_lt h1)]; rfl
+  | [], y :: ys, h, h', zs, hm, i, _ => by
+    simp only [meldItems, Option.some.injEq, Prod.mk.injEq] at hm
+    rw [← hm.2, firstValidListItemH_two]
+    have hnil : ¬ i < ([] : List Addr).length := by simp
+    rw [if_neg hnil]
+    by_cases h2 : i < (y :: ys).length
+    · rw [if_pos h2]
+    · rw [if_neg h2, List.getD_eq_getElem?_getD, List.getElem?_eq_none (Nat.le_of_not_lt h2)]; rfl
+  | x :: xs, y :: ys, h, h', zs, hm, i, hi => by
+    simp only [meldItems] at hm
+    cases hgn : g h x y with
+    | none => simp [hgn] at hm
+    | some q =>
+      obtain ⟨h1, r⟩ := q
+      simp only [hgn] at hm
+      cases hrest : meldItems g h1 xs ys with
+      | none => simp [hrest] at hm
+      | some q2 =>
+        obtain ⟨h2, rs⟩ := q2
+        simp only [hrest, Option.some.injEq, Prod.mk.injEq] at hm
+        rw [← hm.2]
+        cases i with
+        | zero => simp at hi
+        | succ j =>
+          have hj : min xs.length ys.length ≤ j := by
+            simp only [List.length_cons] at hi; omega
+          have ih := meldItems_tail xs ys h1 h2 rs hrest j hj
+          rw [firstValidListItemH_two] at ih ⊢
+          simp only [List.getD_cons_succ, List.length_cons, Nat.add_lt_add_iff_right]
+          exact ih
+
 end Ytk.Heap
